@@ -42,38 +42,57 @@ impl FilterProtocol {
         &self,
         block_filters: packed::BlockFilters,
         limit: usize,
-    ) -> Vec<packed::Byte32> {
+    ) -> Result<Vec<packed::Byte32>, Status> {
         let start_number: BlockNumber = block_filters.start_number().unpack();
         let reader = GCSFilterReader::new(SipHasher24Builder::new(0, 0), M, P);
         let script_hashes = self
             .storage
             .get_scripts_hash(start_number + limit as BlockNumber);
-        block_filters
-            .filters()
-            .into_iter()
-            .take(limit)
-            .enumerate()
-            .filter_map(|(index, block_filter)| {
-                let mut input = Cursor::new(block_filter.raw_data());
-                if reader
-                    .match_any(&mut input, &mut script_hashes.iter().map(|v| v.as_slice()))
-                    .expect("GCSFilterReader#match_any should be ok")
-                {
-                    let block_hash = block_filters
-                        .block_hashes()
-                        .get(index)
-                        .expect("checked index");
+        let mut matched_block_hashes = Vec::new();
+        for (index, block_filter) in block_filters.filters().into_iter().take(limit).enumerate() {
+            let block_hash = if let Some(block_hash) = block_filters.block_hashes().get(index) {
+                block_hash
+            } else {
+                let errmsg = format!("no block hash for the {}-th block filter", index);
+                return Err(StatusCode::MalformedProtocolMessage.with_context(errmsg));
+            };
+            let filter_data = block_filter.raw_data();
+            // N.B. The filter data is provided by the remote peer, it could be malformed.
+            // `GCSFilterReader::match_any` calculates `n_elements * M` without overflow checks.
+            let has_too_many_elements = filter_data
+                .get(..8)
+                .map(|data| u64::from_le_bytes(data.try_into().expect("checked length")))
+                .map(|n_elements| n_elements.checked_mul(M).is_none())
+                .unwrap_or(false);
+            if has_too_many_elements {
+                let errmsg = format!(
+                    "block filter for block {:#x} has too many elements",
+                    block_hash
+                );
+                return Err(StatusCode::MalformedProtocolMessage.with_context(errmsg));
+            }
+            let mut input = Cursor::new(filter_data);
+            match reader.match_any(&mut input, &mut script_hashes.iter().map(|v| v.as_slice())) {
+                Ok(true) => {
                     info!("check_filters_data matched, block_hash: {:#x}", block_hash);
-                    Some(block_hash)
-                } else {
+                    matched_block_hashes.push(block_hash);
+                }
+                Ok(false) => {
                     trace!(
                         "check_filters_data not matched, block_hash: {:#x}",
-                        block_filters.block_hashes().get(index).expect("msg")
+                        block_hash
                     );
-                    None
                 }
-            })
-            .collect()
+                Err(err) => {
+                    let errmsg = format!(
+                        "block filter for block {:#x} is malformed: {}",
+                        block_hash, err
+                    );
+                    return Err(StatusCode::MalformedProtocolMessage.with_context(errmsg));
+                }
+            }
+        }
+        Ok(matched_block_hashes)
     }
 
     fn should_ask(&self, immediately: bool) -> bool {
